@@ -23,3 +23,6 @@ def run(rep, W, ctx):
     S.c18_ops(rep, W)                   # reject exit is write-free
     H.handler_args(rep, W)             # through the HTTP entry point: (validated client id, path id, accumulated body)
     S.s_clientid(rep, W)
+    # "latest is nil" must mean "no versions yet": the one place outside the operation that writes the latest pointer (client
+    # creation in the add-version handler) leaves it nil, only for an absent client
+    S.s_newclient(rep, W)
